@@ -621,7 +621,39 @@ def _payload_copy_site(fx, fi, R, fn):
             hl = _payload_loop(h, me, fx.fn(h))
             if hl is not None and all(any(s.kind == "iter" and s.node is hl.iter for s in steps) for steps, oc in enumerate_paths(h.node.body) if oc in ("fall", "return")):
                 return n
+            if hl is None and _replaces_every_payload(fx.prog, h):
+                return n
     return None
+
+
+def _replaces_every_payload(prog, h):
+    """Decided on the helper's effects rather than its shape (a comprehension that collects the copies and a second
+    loop that stores them, say): for every pseudo-element i of `self._graph.node_indices()` an unconditional store
+    `self._graph[i] = self._graph[i].copy()`, and no other store into the graph."""
+    from .. import termflow as tf
+
+    try:
+        ex = extract(prog, h, copy_is_identity=False)
+    except AnalysisError:
+        return False
+    graph = tf.Poly.atom(("attr", tf.Poly.atom(("v", "P0")).key(), "_graph")).key()
+    hits = set()
+    for e in ex.events:
+        if e.name != "store_sub" or len(e.args) != 3 or vkey(e.args[0]) != graph:
+            continue
+        idx, val = e.args[1], e.args[2]
+        ia = idx.as_atom() if isinstance(idx, tf.Poly) else None
+        va = val.as_atom() if isinstance(val, tf.Poly) else None
+        if ia is None or ia[0] != "elem" or getattr(e, "full_guards", e.guards):
+            return False
+        dom = key_atom(ia[1])
+        if dom is None or dom[0] != "mcall" or dom[1] != "node_indices" or dom[2] != graph:
+            return False
+        want = tf.Poly.atom(("sub", graph, idx.key())).key()
+        if va is None or va[0] != "mcall" or va[1] not in ("copy", "__copy__") or va[2] != want:
+            return False
+        hits.add(ia[2])
+    return len(hits) == tf.K_ELEMS
 
 
 def rule_M4(ctx, fx):
